@@ -16,6 +16,7 @@ package server
 // delivered, and - at the end of each history - absent after a restart.
 
 import (
+	"os"
 	"math"
 	"bytes"
 	"fmt"
@@ -329,6 +330,9 @@ func checkC14(job *Job, res *Result) {
 	res.Bounds["alphabet"] = len(alpha)
 	res.Bounds["sweeper_phases_ms"] = phases
 	res.Bounds["timed_model_states_total"] = total
+	if job.Shard == 0 && job.Replay == nil {
+		c14RoleChange(job, res)
+	}
 }
 
 // timerDump lists every pending timer the server holds: the expiry index of each
@@ -353,4 +357,56 @@ func timerDump(s *Server) string {
 	sort.Strings(hs)
 	sb.WriteString(" hooks[" + strings.Join(hs, ",") + "]")
 	return sb.String()
+}
+
+// c14RoleChange: the sweeper of a process that changes its role at run time. A
+// replica (started from a config file that names its leader) that is promoted
+// with FOLLOW no one expires what it is given from then on; what it was given
+// before, by its leader, expires too.
+func c14RoleChange(job *Job, res *Result) {
+	viol := func(sig, detail string) {
+		res.Violate("C14/role-change:"+sig, detail, map[string]any{"role_change": true})
+	}
+	x := runExec(job, freezeAllBut("backgroundExpiring", "backgroundSyncAOF", "follow", "Serve#2", "Serve#4"), func(x *Exec) {
+		L := x.Start("L", x.dir+"/L", 9001, nil)
+		lc := x.Dial(L.Addr)
+		lc.Do("SET", "k", "long", "EX", "1000", "POINT", "1", "1")
+		fdir := x.dir + "/F"
+		os.MkdirAll(fdir, 0700)
+		os.WriteFile(filepath.Join(fdir, "config"), []byte(`{"follow_host":"127.0.0.1","follow_port":9001}`), 0600)
+		F := x.Start("F", fdir, 9002, nil)
+		fc := x.Dial(F.Addr)
+		ok := false
+		for i := 0; i < 100 && !ok; i++ {
+			vsched.Sleep(int64(100 * stdtime.Millisecond))
+			vsched.Quiesce()
+			ok = followerCaughtUp(fc)
+		}
+		if !ok {
+			viol("setup", "the replica started from a config file did not catch up within 10 virtual seconds")
+			return
+		}
+		if r := fc.Do("FOLLOW", "no", "one"); r.IsErr() {
+			viol("setup", "FOLLOW no one replied "+r.String())
+			return
+		}
+		fc.Do("SET", "k", "own", "EX", "1", "POINT", "2", "2")
+		fc.Do("EXPIRE", "k", "long", "1")
+		fc.Do("SETCHAN", "lease", "EX", "1", "NEARBY", "k9", "FENCE", "POINT", "50", "50", "100")
+		vsched.Sleep(int64(1700 * stdtime.Millisecond))
+		vsched.Quiesce()
+		res.Evaluations++
+		res.DistinctS("rolechange:promoted")
+		for _, id := range []string{"own", "long"} {
+			if g := fc.Do("GET", "k", id); !g.Null && !g.IsErr() {
+				viol("promoted-replica-does-not-expire", fmt.Sprintf("a replica promoted with FOLLOW no one still serves k/%s 0.7 s after its deadline (TTL %s): %s", id, fc.Do("TTL", "k", id), vclip(g.String(), 80)))
+			}
+		}
+		if ch := fc.Do("CHANS", "lease"); len(ch.A) != 0 {
+			viol("promoted-replica-does-not-expire", "a channel created with EX 1 on the promoted replica is still listed 0.7 s after its deadline")
+		}
+	})
+	if x.Err != "" || len(x.Crashes) > 0 {
+		viol("hang-or-crash", fmt.Sprint(x.Err, x.Crashes))
+	}
 }
